@@ -221,11 +221,25 @@ func scopeAndCompleteness(l *sitemodel.Listing, res []disasm.Syscall) (leakBait 
 		byFunc[name] = e
 	}
 	got := map[string]map[int]int{}
+	// how the caller is spelled (whole header line, symbol only, ...) is not pinned down: find the function by its symbol
+	lookup := func(caller string) (string, *sitemodel.Expect) {
+		if e, ok := byFunc[caller]; ok {
+			return caller, e
+		}
+		c := strings.TrimSpace(caller)
+		for name, e := range byFunc {
+			if c != "" && (strings.HasPrefix(name, c) || strings.HasPrefix(c, e.Func)) {
+				return name, e
+			}
+		}
+		return "", nil
+	}
 	for _, s := range res {
-		e, ok := byFunc[s.Caller]
-		if !ok {
+		key, e := lookup(s.Caller)
+		if e == nil {
 			return false, fmt.Errorf("syscall %d attributed to caller %q, which is not a function of the listing", s.Num, s.Caller)
 		}
+		s.Caller = key
 		if !e.Possible[s.Num] {
 			return false, fmt.Errorf("syscall number %d (%s) is attributed to a site in %q, but no instruction of that function loads this number: it was taken from another function", s.Num, s.Name, e.Func)
 		}
